@@ -616,8 +616,15 @@ func c11PendingConnect(c *run.Ctx) {
 	}
 	var reqs []*c11Req
 	n := 2 + c.Rng.Intn(7)
+	pinged := false
 	for i := 0; i < n; i++ {
 		r := &c11Req{Kind: []string{"subscribe", "unsubscribe", "ping", "publish"}[c.Rng.Intn(4)]}
+		if r.Kind == "ping" {
+			if pinged {
+				r.Kind = "publish" // one Ping at a time: a second one gets ErrMax by design
+			}
+			pinged = true
+		}
 		var quit <-chan struct{}
 		if c.Rng.Intn(2) == 0 {
 			r.Quit = make(chan struct{})
